@@ -544,6 +544,7 @@ def fixed_scenarios(prop):
         import random as _r
         out.append(gen_edit_scenario(_r.Random(1), "fixed-edit-every-line-a", slots=[0, 1, 2, 3]))
         out.append(gen_edit_scenario(_r.Random(2), "fixed-edit-every-line-b", slots=[4, 5, 6, 7]))
+        out += fixed_indent_scenarios()
         # (c) source-less functions (exec'd text): an edit that changes only a literal, in process and across
         #     fresh processes
         V = {str(k): {"tag": "v%d" % k, "path": "nosrc.py", "pad": 0, "kind": "sourceless", "text": k} for k in (1, 2)}
@@ -671,31 +672,50 @@ N_SLOTS = 8
 BASE_SLOTS = [1, 2, 3, 4, 5, 6, 7, 25]
 
 
-def gen_edit_scenario(rng, sid, slots=None):
+INDENT_VARIANTS = ["base", "indent-into-if", "indent-into-for", "dedent-out-of-for", "return-into-for",
+                   "swap-two-lines", "move-before-loop", "literal-blanks", "literal-blanks-3", "trailing-blanks",
+                   "blank-line", "comment", "tabs"]
+SAME_PROGRAM = {"base", "trailing-blanks", "blank-line", "comment", "tabs"}
+
+
+def gen_indent_scenario(rng, sid, variants=None):
+    """'same tokens, different program' edits (a statement re-indented into / out of a block, two lines swapped,
+    a statement moved across a block boundary, blanks inside a string literal) and 'different text, same program'
+    edits (trailing blanks, blank line, comment, tabs) of one function, installed like in gen_edit_scenario and
+    called directly and through call_and_shelve().get()"""
+    variants = variants or rng.sample(INDENT_VARIANTS[1:], rng.randint(2, 4))
+    specs = {1: {"variant": "base"}}
+    for v in variants:
+        specs[1 + INDENT_VARIANTS.index(v)] = {"variant": v}
+    return gen_edit_scenario(rng, sid, specs=specs)
+
+
+def gen_edit_scenario(rng, sid, slots=None, specs=None):
     """position-aware edits of ONE function in ONE file: the base text and, for each chosen physical line of the
     body, a version that differs in exactly that line.  Each step installs one version (fresh process + import,
     in-process re-import, or hot reload into the existing function object) and calls it with arguments cached
     before: every semantic edit must be a miss, an unchanged text a hit."""
-    slots = slots if slots is not None else rng.sample(range(N_SLOTS), rng.randint(2, 4))
-    versions = {"1": {"tag": "vm", "path": "verifmod.py", "pad": 0, "kind": "def", "text": 1,
-                      "slots": list(BASE_SLOTS)}}
-    texts = {1: list(BASE_SLOTS)}
-    for n, sl in enumerate(slots):
-        v = list(BASE_SLOTS)
-        v[sl] += 1
-        texts[2 + sl] = v
+    if specs is None:
+        slots = slots if slots is not None else rng.sample(range(N_SLOTS), rng.randint(2, 4))
+        specs = {1: {"slots": list(BASE_SLOTS)}}
+        for n, sl in enumerate(slots):
+            v = list(BASE_SLOTS)
+            v[sl] += 1
+            specs[2 + sl] = {"slots": v}
+    versions = {}
     sc = {"id": sid, "type": "c12", "params": [["x", "pk", None]], "ignore": [], "compress": False,
           "versions": versions, "mode": "same"}
 
     def new_object(text):
-        k = max(int(x) for x in versions) + 1 if text != 1 or "1" in used else 1
-        versions[str(k)] = {"tag": "vm", "path": "verifmod.py", "pad": 0, "kind": "def", "text": text,
-                            "slots": texts[text]}
+        k = max([int(x) for x in versions] + [0]) + 1
+        versions[str(k)] = dict({"tag": "vm", "path": "verifmod.py", "pad": 0, "kind": "def", "text": text},
+                                **specs[text])
         used.add(str(k))
         return k
     used = set()
     events = []
-    order = [1] + [2 + sl for sl in slots]
+    order = sorted(specs)
+    order = [1] + rng.sample(order[1:], len(order) - 1)
     extra = [rng.choice(order) for _ in range(rng.randint(1, 3))]
     cur = None
     had = set()       # texts the current function object has had (never reloaded back to one of them)
@@ -703,6 +723,12 @@ def gen_edit_scenario(rng, sid, slots=None):
         how = "first" if cur is None else rng.choice(["process", "process", "reimport", "hotreload", "hotreload"])
         if how == "hotreload" and (text in had or versions[str(cur)]["text"] == text):
             how = "process"
+        if how == "hotreload" and specs[text].get("variant") in SAME_PROGRAM and \
+                versions[str(cur)].get("variant") in SAME_PROGRAM:
+            # two texts of the SAME program can compile to equal code objects (a blank line vs a comment line):
+            # the hash in _FUNCTION_HASHES still matches and nothing is re-read -- rightly so; the model, which
+            # identifies a version by its text, has no event for "other text, equal code object"
+            how = "reimport"
         if how == "process":
             events.append(["newprocess"])
         if how == "hotreload":
@@ -716,10 +742,14 @@ def gen_edit_scenario(rng, sid, slots=None):
             events += [["define", k], ["wrap", k]]
             had = set()
         cur = k
-        for a in rng.sample([0, 1, 0], rng.randint(1, 3)):
+        for a in rng.sample([0, 1, 2, 0], rng.randint(1, 3)):
             if rng.random() < 0.3:
                 events.append(["check", k, {"pos": [I(a)], "kw": []}, True])
-            events.append(_c(k, a))
+            if rng.random() < 0.25:
+                nref = sum(1 for e in events if e[0] == "shelve")
+                events += [["shelve", k, {"pos": [I(a)], "kw": []}, True], ["get", nref]]
+            else:
+                events.append(_c(k, a))
     sc["events"] = events
     return sc
 
@@ -793,8 +823,8 @@ def unnamed(v):
 def monitor(sc, classify=False):
     """Python twin of [admissible] (Model/MemoryCore.v), cross-checked against Coq on every scenario.
     Returns (admissible?, index of the first refused event, clause 'stale'|'other-version').
-    classify=True: the variant used to recognise known findings -- the 'other-version' clause (F10) can only
-    bite an object that is in _FUNCTION_HASHES, which lambdas and partials never are."""
+    The 'other-version' clause (F10) only concerns callables that can enter _FUNCTION_HASHES ([named] in the
+    model): lambdas and partials never do.  (classify is kept for compatibility; both variants coincide.)"""
     V = sc["versions"]
     live, wraps, stale, called, cur = [], [], [], [], None
     for i, ev in enumerate(sc["events"]):
@@ -828,7 +858,7 @@ def monitor(sc, classify=False):
             if k in wraps:
                 if k in stale:
                     return False, i, "stale"
-                if k in called and cur != V[str(k)].get("text", 0) and not (classify and unnamed(V[str(k)])):
+                if k in called and cur != V[str(k)].get("text", 0) and not unnamed(V[str(k)]):
                     return False, i, "other-version"
                 called = [k] + called
                 cur = V[str(k)].get("text", 0)
@@ -933,6 +963,9 @@ def judge(sc, res):
                                      "what": "cached partial %s returned %s, the plain partial returns %s"
                                              % (k, r["v"], r["expect"])})
                     elif sc["type"] == "c12":
+                        devs.append({"prop": "C02", "kind": "wrong-value", "event": i, "key": version_key(i),
+                                     "what": "cached call returned %s, the (edited) plain function returns %s"
+                                             % (r["v"], r["expect"])})
                         devs.append({"prop": "C12", "kind": "wrong-version", "event": i, "key": version_key(i),
                                      "what": "call of version %s returned %s, its own code computes %s"
                                              % (k, r["v"], r["expect"])})
@@ -1133,6 +1166,10 @@ def model_compare(ctx, scs, ress, name):
         for i, (m, im) in enumerate(zip(model_flat, impl)):
             if m[0] == 2 and im[0] == 2:
                 continue   # both raise (the exception class of filter_args is not modelled)
+            if m[0] in (3, 4, 7) and im[0] == m[0]:
+                # a value is identified by its class (the canonical text of the value); the source component is
+                # redundant and ambiguous when two texts are the same program (comment / blank-line edits)
+                m, im = (m[0], 0, m[2]), (im[0], 0, im[2])
             if m != im:
                 disagreements.append({"scenario_id": sc["id"], "event": i, "model": m, "impl": im,
                                       "scenario": sc})
@@ -1244,6 +1281,14 @@ def fixed_numpy_scenarios():
     return out
 
 
+def fixed_indent_scenarios():
+    """every 'same tokens, different program' variant against the base, across fresh processes and in process"""
+    import random as _r
+    return [gen_indent_scenario(_r.Random(11), "fixed-indent-a", INDENT_VARIANTS[1:5]),
+            gen_indent_scenario(_r.Random(12), "fixed-indent-b", INDENT_VARIANTS[5:9]),
+            gen_indent_scenario(_r.Random(13), "fixed-indent-c", INDENT_VARIANTS[9:] + ["indent-into-if"])]
+
+
 def rng_for(ctx, prop):
     import random
     return random.Random("%s-%d" % (prop, ctx.seed))
@@ -1255,13 +1300,20 @@ def gen_for(ctx, prop, n=None):
     if prop == "C12":
         n = n or (210 if quick else 2500)
         return ([W_F10, W_SAME] + fixed_scenarios(prop) + [gen_c12_scenario(rng, i) for i in range(n)]
-                + [gen_edit_scenario(rng, "edit-%d" % i) for i in range(45 if quick else 600)])
+                + [gen_edit_scenario(rng, "edit-%d" % i) for i in range(35 if quick else 600)]
+                + [gen_indent_scenario(rng, "indent-%d" % i) for i in range(30 if quick else 400)])
     sigs3 = enum_signatures(3)
     sigs = enum_signatures(4 if quick else 5)
     n = n or (230 if quick else 3000)
     scs = [w for w, p, _, _ in WITNESSES if w["type"] == "sig"] + fixed_scenarios(prop)
     scs += [gen_partial_scenario(rng, "p-%d" % i) for i in range(25 if quick else 400)]
     scs += [gen_codeless_scenario(rng, "cl-%d" % i) for i in range(35 if quick else 400)]
+    if prop == "C02":
+        # "a value equal to what the undecorated function returns" also when the function was edited meanwhile:
+        # admissible-by-construction edit histories (position-aware and indentation-only edits)
+        scs += fixed_indent_scenarios()
+        scs += [gen_indent_scenario(rng, "indent-%d" % i) for i in range(12 if quick else 100)]
+        scs += [gen_edit_scenario(rng, "edit-%d" % i) for i in range(8 if quick else 100)]
     if numpy_available():
         scs += fixed_numpy_scenarios()
         scs += [gen_numpy_scenario(rng, "np-%d" % i) for i in range(30 if quick else 400)]
